@@ -335,6 +335,9 @@ type monHandChips struct {
 	seenSnap int
 	settled  map[int]bool
 	topup    func(h int, id string) int64 // chips credited to id during hand h by the scenario
+	// C02: who has answered the request currently being collected
+	answered    map[string]bool
+	answeredKey string
 }
 
 func newMonHandChips(prop string) *monHandChips {
@@ -460,6 +463,9 @@ func (m *monHandChips) After(td *TD, ev *ActEvent) *Viol {
 	if v := m.scan(td); v != nil {
 		return v
 	}
+	if m.prop == "C02" && (ev.Kind == "ready" || ev.Kind == "ante" || ev.Kind == "blinds") {
+		return m.responseAttribution(td, ev)
+	}
 	if m.prop != "C02" || ev.Kind != "wager" || ev.Err != nil {
 		return nil
 	}
@@ -491,6 +497,62 @@ func (m *monHandChips) After(td *TD, ev *ActEvent) *Viol {
 		}
 	}
 	return nil
+}
+
+// responseAttribution (C02): an accepted readiness / ante / blind response is recorded for the submitter's own
+// entry of the hand's player list and for no other. The hand's response collection is read through the
+// build-tagged accessor at the quiescent point after the call; while the request is still open (somebody asked
+// has not answered yet) the entries heard from must be exactly those of the players who answered.
+func (m *monHandChips) responseAttribution(td *TD, ev *ActEvent) *Viol {
+	hi := m.hands[ev.Before.State.GameCount]
+	bgs := ev.Before.State.GameState
+	if hi == nil || bgs == nil {
+		return nil
+	}
+	key := fmt.Sprintf("%d/%s/%s", ev.Before.State.GameCount, bgs.Status.Round, bgs.Status.CurrentEvent)
+	if m.answered == nil || m.answeredKey != key {
+		m.answered, m.answeredKey = map[string]bool{}, key
+	}
+	if ev.Err != nil {
+		return nil
+	}
+	m.answered[ev.ID] = true
+	t := td.table()
+	cgs := t.State.GameState
+	if cgs == nil || t.State.GameCount != ev.Before.State.GameCount || cgs.Status.Round != bgs.Status.Round || cgs.Status.CurrentEvent != bgs.Status.CurrentEvent {
+		return nil // the request has been completed, the hand moved on
+	}
+	open := false
+	for _, id := range ev.P.Players {
+		if !m.answered[id] {
+			open = true
+		}
+	}
+	st := pt.VerifHandResponses(td.te)
+	if !open || st == nil {
+		return nil
+	}
+	for idx, ready := range st {
+		if idx < 0 || int(idx) >= len(hi.ids) {
+			return &Viol{Key: "response-recorded-for-other-entry", Detail: fmt.Sprintf("hand %d %s: the response collection holds entry %d, the hand has %d entries %v", t.State.GameCount, key, idx, len(hi.ids), hi.ids)}
+		}
+		who := hi.ids[idx]
+		if ready != m.answered[who] {
+			return &Viol{Key: "response-recorded-for-other-entry", Detail: fmt.Sprintf("hand %d %s: after %s(%s) was accepted, entry %d (%s) counts as answered=%v; answered so far: %v; collection %v; entries %v", t.State.GameCount, key, ev.Kind, ev.ID, idx, who, ready, keysOf(m.answered), st, hi.ids)}
+		}
+	}
+	return nil
+}
+
+func keysOf(m map[string]bool) []string {
+	var out []string
+	for k, v := range m {
+		if v {
+			out = append(out, k)
+		}
+	}
+	sort.Strings(out)
+	return out
 }
 
 // ---------------------------------------------------------------------------------------------
